@@ -274,7 +274,7 @@ Theorem C02_tostring_chain_denotes : forall W fuel root name d,
   nerr (snd r) = 0 -> oof (snd r) = false ->
   forall k e, alookup k (ed_values d) = Some (EToString e) -> reserved k = false ->
   exists va, arg_chain W fuel root name d k 0%nat = Some va /\
-    forall s sec, to_string big_fuel va = (s, false, sec) ->
+    forall s sec, to_string (ts_need va) va = (s, false, sec) ->
       export big_fuel (property k (fst r)) = Some (XScalar sec false (SStr s)).
 Proof. exact tostring_chain_denotes. Qed.
 
@@ -286,7 +286,7 @@ Theorem C02_tostring_of_key_denotes : forall W fuel root name d,
   alookup k (ed_values d) = Some (EToString (ESym [a])) -> reserved k = false ->
   object_key a = Some k1 -> reserved k1 = false -> alookup k1 (ed_values d) = Some e1 ->
   exists va, property k1 (fst r) = va ++ property k1 (tl (fst r)) /\
-    forall s sec, to_string big_fuel va = (s, false, sec) ->
+    forall s sec, to_string (ts_need va) va = (s, false, sec) ->
       export big_fuel (property k (fst r)) = Some (XScalar sec false (SStr s)).
 Proof. exact tostring_of_key_denotes. Qed.
 
@@ -519,7 +519,7 @@ Qed.
 (* ---- fn::toString of the merged object o: own keys only, while o itself and fn::toJSON show a and b ---- *)
 Example C02_exb_tostring_object :
   exists va, property "o" (fst ex_run) = va ++ property "o" (tl (fst ex_run)) /\
-    forall s sec, to_string big_fuel va = (s, false, sec) ->
+    forall s sec, to_string (ts_need va) va = (s, false, sec) ->
       export big_fuel (property "ostr" (fst ex_run)) = Some (XScalar sec false (SStr s)).
 Proof.
   apply (C02_tostring_of_key_denotes ex_world 200 "" "e" ex_def (proj1 C02_exb_clean) (proj1 (proj2 C02_exb_clean))
@@ -529,7 +529,7 @@ Qed.
 Example C02_exb_tostring_object_computed :
   export big_fuel (property "ostr" (fst ex_run)) = Some (XScalar false false (SStr """a""=""1""")) /\
   export big_fuel (property "ojs" (fst ex_run)) = Some (XScalar false false (SStr "{""a"":""1"",""b"":""2""}")) /\
-  to_string big_fuel (property "o" (fst ex_run)) = ("""a""=""1""", false, false).
+  to_string (ts_need (property "o" (fst ex_run))) (property "o" (fst ex_run)) = ("""a""=""1""", false, false).
 Proof. vm_compute. repeat split; reflexivity. Qed.
 
 (* the denotations used above, computed on the exported value *)
